@@ -314,7 +314,7 @@ Theorem new_view_accepted x ninst nh nvw vs sg pp pps blk :
   validate_pp c (tc_t x) pp pps = true ->
   match latest_vote vs with
   | Some lv => exists p, v_proof lv = Some p /\ commitsTo nh (Some blk) (r_hash (pf_ppref p)) = true /\ r_hash pp = r_hash (pf_ppref p)
-  | None => ctx_ok wm shut (nh, nvw) = true /\ validProposal (c_me c) (r_height pp) (Some blk) (r_hash pp) = true
+  | None => ctx_ok wm shut (t_h (tc_t x), tc_v x) = true /\ validProposal (c_me c) (r_height pp) (Some blk) (r_hash pp) = true
   end ->
   accepted (handle_nv c wm shut x T_NEW_VIEW ninst nh nvw vs sg pp pps (Some blk)) nvw (r_hash pp).
 Proof.
@@ -372,7 +372,7 @@ Theorem honest_new_view_is_accepted cs cr wm shut xa v o wm' shut' xr :
   c_inst cr = c_inst cs -> t_cm (tc_t xr) = t_cm (tc_t xa) -> t_h (tc_t xr) = t_h (tc_t xa) ->
   tc_v xr <= v -> get_pp (tc_t xr) v = None ->
   exists to ty i h vs s pp pps b, o = OSend to (MNV ty i h v vs s pp pps b) /\
-    (((forall vt, In vt vs -> v_proof vt = None) -> ctx_ok wm' shut' (h, v) = true /\ validProposal (c_me cr) h b (r_hash pp) = true) ->
+    (((forall vt, In vt vs -> v_proof vt = None) -> ctx_ok wm' shut' (t_h (tc_t xr), tc_v xr) = true /\ validProposal (c_me cr) h b (r_hash pp) = true) ->
      accepted cr (handle_nv cr wm' shut' xr ty i h v vs s pp pps b) v (r_hash pp)).
 Proof.
   intros SI VI Ho Hin Hnot Hl Hinst Hcm Hh Hv Hnone.
